@@ -3,10 +3,12 @@ package main
 import (
 	"bytes"
 	"encoding/gob"
+	"errors"
 	"fmt"
 	"math/rand"
 	"os"
 	"path/filepath"
+	"runtime/debug"
 	"strings"
 	"sync/atomic"
 	"time"
@@ -236,6 +238,28 @@ func tryOpen(r *vf.Run, caseID, path, opt string, w map[string]any) (idx *updog.
 		w["panic"], w["stack"] = o.msg, head(o.stack, 2500)
 		r.Violation(caseID, "open-panics", w)
 		return nil, nil, false
+	}
+	if o.err != nil {
+		// the error is what the caller logs, wraps and compares after the failed open (when the file is closed and
+		// unmapped again): reading it must work. A fault while reading memory is turned into a panic for this goroutine.
+		var text string
+		p, msg, stack := vf.Try(func() {
+			defer debug.SetPanicOnFault(debug.SetPanicOnFault(true))
+			for e := o.err; e != nil; e = errors.Unwrap(e) {
+				text = e.Error()
+			}
+			text = o.err.Error()
+		})
+		r.Count("error_values_read_after_failed_open", 1)
+		if p {
+			w["panic"], w["stack"] = msg, head(stack, 2500)
+			w["explanation"] = "OpenIndex returned an error whose text cannot be read (Error() panics or touches memory that is gone)"
+			r.Violation(caseID, "error-value-unusable", w)
+			return nil, nil, false
+		}
+		if text == "" {
+			r.Count("empty_error_texts", 1)
+		}
 	}
 	return o.idx, o.err, true
 }
